@@ -108,7 +108,10 @@ impl MeanRef {
     pub fn dv<F: Fl>(&self, depth: u32) -> f64 {
         let n = self.n as f64;
         let k = 20.0 + 6.0 * depth as f64;
-        (k * n / (n - 1.0) * self.q + self.var) * F::U
+        // + absolute underflow term: every square and partial sum of squares is rounded to a multiple of the smallest
+        // subnormal eta when it falls below the normal range (data of magnitude ~ sqrt(MIN_POSITIVE))
+        let eta = if F::IS32 { crate::fl::pow2(-149) } else { crate::fl::pow2(-1074) };
+        (k * n / (n - 1.0) * self.q + self.var) * F::U + 8.0 * n * eta
     }
     /// inside the conditioning domain: the variance is resolved to 1 %
     pub fn conditioned<F: Fl>(&self, depth: u32) -> bool {
